@@ -818,3 +818,123 @@ func runDisconnectLast(c *vrun.Case) vrun.Result {
 	}
 	return res
 }
+
+// TestC10AfterFaults: the goroutine clause after real fault histories - the reconnect / resume scenario engine of C05
+// (faults at message boundaries in four modes, redial delays and errors, cut and refused resumes, links that die right
+// after a resume, a blocking logger), then every stream and the connection are closed, the broker goes away, five virtual
+// minutes pass: no goroutine created by the library is left in the bubble.
+func TestC10AfterFaults(t *testing.T) {
+	e := vrun.LoadEnv()
+	meta := vrun.Meta{Property: "C10", Workload: "TestC10AfterFaults", Total: e.Pick(150, 20000),
+		Rule:        "virtual time, the C05 scenario engine: 0-2 upstreams and 0-2 downstreams of all QoS with traffic, 1-3 transport failures at message boundaries (4 modes) with redial delays / dial errors / resume conflicts / a failure in the retry's connect handshake / a cut or refused resume / a link that dies right after a resume, optionally a blocking logger or a transport whose Close reports an error; afterwards all streams and the connection are closed, the broker side is closed, 5 virtual minutes pass. Oracle: no goroutine created by library code is alive in the bubble. non-trivial = at least one fault fired; distinct = scenario signature",
+		Assumptions: []string{"only goroutines created by library functions count; the census is taken inside the bubble of the case"}}
+	classesC2S := []string{"UpstreamChunk", "DownstreamChunkAck", "Ping"}
+	classesS2C := []string{"UpstreamChunkAck", "DownstreamChunk", "DownstreamChunkAckComplete", "Pong"}
+	vrun.Loop(t, meta, 0, func(c *vrun.Case) vrun.Result {
+		r := c.Rng
+		s := reconlib.Scenario{PingMs: []int{200, 500}[r.Intn(2)], Storage: "payload", WritesB: 2, DuringWrites: 2, AckHoldMod: []int{0, 2, 3}[r.Intn(3)], Census: true}
+		nu, nd := r.Intn(3), r.Intn(3)
+		if nu+nd == 0 {
+			nu = 1
+		}
+		for i := 0; i < nu; i++ {
+			s.Ups = append(s.Ups, reconlib.UpSpec{QoS: []string{"reliable", "unreliable", "partial"}[r.Intn(3)], Flush: []string{"immediate", "size64"}[r.Intn(2)], Writes: 8})
+		}
+		for i := 0; i < nd; i++ {
+			s.Downs = append(s.Downs, reconlib.DownSpec{QoS: []string{"reliable", "unreliable", "partial"}[r.Intn(3)]})
+		}
+		for _, k := range []string{"open-up", "open-down", "metadata", "call", "call-wait"} {
+			if r.Intn(4) == 0 {
+				s.OutageCalls = append(s.OutageCalls, k)
+			}
+		}
+		for i := []int{1, 1, 2, 3}[r.Intn(4)]; i > 0; i-- {
+			f := reconlib.Fault{}
+			dir, class := memnet.C2S, classesC2S[r.Intn(len(classesC2S))]
+			if r.Intn(2) == 0 {
+				dir, class = memnet.S2C, classesS2C[r.Intn(len(classesS2C))]
+			}
+			if nu == 0 && strings.HasPrefix(class, "Upstream") || nd == 0 && strings.HasPrefix(class, "Downstream") {
+				class = map[memnet.Dir]string{memnet.C2S: "Ping", memnet.S2C: "Pong"}[dir]
+			}
+			f.Trigger = memnet.Trigger{Dir: dir, Class: class, Ordinal: 1 + r.Intn(4), After: r.Intn(2) == 0, Mode: []memnet.Mode{memnet.Sever, memnet.WFail, memnet.REOF, memnet.Blackhole}[r.Intn(4)]}
+			switch r.Intn(5) {
+			case 1:
+				f.DialDelayMs = 3000
+			case 2:
+				f.DialErrors = 1 + r.Intn(3)
+			}
+			if r.Intn(5) == 0 {
+				f.ResumeConflicts = 1 + 2*r.Intn(2)
+			}
+			switch r.Intn(8) {
+			case 0:
+				f.NextLink = []memnet.Trigger{{Dir: memnet.C2S, Class: "ConnectRequest", Ordinal: 1, After: r.Intn(2) == 0, Mode: memnet.Sever}}
+			case 1:
+				f.NextLink = []memnet.Trigger{{Dir: memnet.S2C, Class: "ConnectResponse", Ordinal: 1, Mode: memnet.Sever}}
+			case 2:
+				if nu > 0 {
+					f.CutResumeOf = 1 + r.Intn(nu)
+				}
+			case 3:
+				if nu > 0 {
+					f.RefuseResumeOf = 1 + r.Intn(nu)
+				}
+			case 4:
+				cl := "UpstreamResumeResponse"
+				if nu == 0 {
+					cl = "DownstreamResumeResponse"
+				}
+				f.NextLink = []memnet.Trigger{{Dir: memnet.S2C, Class: cl, Ordinal: 1, After: true, Mode: []memnet.Mode{memnet.Sever, memnet.REOF}[r.Intn(2)]}}
+			}
+			s.Faults = append(s.Faults, f)
+		}
+		if r.Intn(4) == 0 {
+			s.SlowLog = reconlib.SlowLogSites[r.Intn(len(reconlib.SlowLogSites))]
+			s.SlowLogMs = []int{300, 3000}[r.Intn(2)]
+		}
+		if r.Intn(4) == 0 {
+			s.CloseFails = "broken"
+		}
+		var res vrun.Result
+		ok, dump := vrun.Watchdog(120*time.Second, func() {
+			func() {
+				defer func() {
+					if p := recover(); p != nil {
+						if res.Verdict == "" {
+							res = vrun.Inconcl(fmt.Sprint("bubble aborted: ", p))
+						} else if res.Note == "" {
+							res.Note = fmt.Sprint("bubble end: ", p)
+						}
+					}
+				}()
+				synctest.Test(c.T, func(t *testing.T) {
+					o := reconlib.Run(s)
+					if len(o.Leftover) > 0 {
+						res = vrun.Violation("library goroutines survive although every stream and the connection were closed, the peer is gone and 5 virtual minutes have passed", "goroutine-leak-after-faults:"+o.Leftover[0],
+							map[string]any{"goroutines": o.Leftover, "first": o.LeftoverFirst, "count": len(o.Leftover), "faults_fired": o.FaultsFired})
+						return
+					}
+					sig := fmt.Sprintf("u%d|d%d|%v|%s%d|%s", nu, nd, s.OutageCalls, s.SlowLog, s.SlowLogMs, s.CloseFails)
+					for _, f := range s.Faults {
+						sig += fmt.Sprintf("|%s-%s-%s#%d", f.Trigger.Mode, f.Trigger.Dir, f.Trigger.Class, f.Trigger.Ordinal)
+					}
+					res = vrun.Hold(sig, o.FaultsFired > 0)
+					res.Stat("faults_fired", int64(o.FaultsFired))
+					res.Stat("links", int64(o.Links))
+				})
+			}()
+		})
+		if !ok {
+			res = vrun.Inconcl("real-time watchdog fired (bubble stalled)")
+			for _, g := range vrun.ParseStacks(dump) {
+				if strings.Contains(g.Text, vrun.LibPrefix) && (strings.Contains(g.Header, "sync.Mutex.Lock") || strings.Contains(g.Header, "sync.RWMutex")) {
+					res = vrun.Violation("a library goroutine is parked on a mutex forever", "close-blocks-on-mutex:"+g.InnermostLib()+":after-faults", map[string]any{"goroutine": g.Text})
+					break
+				}
+			}
+		}
+		res.Desc = s
+		return res
+	})
+}
